@@ -22,6 +22,8 @@ Print Assumptions C13_checkgp_errors.
 
 (* CheckDH accepts exactly: bit length 2048, table, prime p, prime (p-1)/2; [prime] is the
    primality oracle (big.Int.ProbablyPrime(64) in the code: trusted base). *)
+(* (check_dh calls the oracle on Z.quot (p-1) 2; it equals (p-1)/2 because bitlen p = 2048 with
+   0 <= p forces 0 < p) *)
 Theorem C13_checkdh : forall (prime : Z -> bool) g p, 0 <= p ->
   (check_dh prime g p = 0 <->
    bitlen p = 2048 /\ gp_table g p /\ prime p = true /\ prime ((p - 1) / 2) = true).
@@ -37,20 +39,31 @@ Proof. exact check_dh_safe_prime. Qed.
 Print Assumptions C13_checkdh_safe_prime.
 
 (* The residue rule is "g is a quadratic residue" (Euler's criterion), for EVERY safe prime
-   7 <= p < 4000 and every g in 2..7: bounded statement, the bound is part of it (the rule
+   7 <= p < 8000 and every g in 2..7: bounded statement, the bound is part of it (the rule
    depends only on p mod 840 and p mod 4).  p = 5 is the one safe prime = 1 mod 4, where the
    reciprocity argument does not apply; it is not a 2048-bit number. *)
 Theorem C13_residue_is_qr_bounded : forall p g,
-  6 < p < 4000 -> safe_primeb p = true -> 2 <= g <= 7 ->
+  6 < p < 8000 -> safe_primeb p = true -> 2 <= g <= 7 ->
   (gp_table g p <-> g ^ ((p - 1) / 2) mod p = 1).
 Proof. exact residue_is_qr_bounded. Qed.
 Print Assumptions C13_residue_is_qr_bounded.
 
 Theorem C13_residue_is_qr_bounded_prime : forall p g,
-  6 < p < 4000 -> prime p -> prime ((p - 1) / 2) -> 2 <= g <= 7 ->
+  6 < p < 8000 -> prime p -> prime ((p - 1) / 2) -> 2 <= g <= 7 ->
   (gp_table g p <-> g ^ ((p - 1) / 2) mod p = 1).
 Proof. exact residue_is_qr_bounded_prime. Qed.
 Print Assumptions C13_residue_is_qr_bounded_prime.
+
+(* The rule looks only at p mod 840, and every residue class modulo 840 that a safe prime > 11 can
+   occupy contains a safe prime below the bound (and conversely): so the verdict of the table on a
+   2048-bit safe prime is its verdict on a small safe prime of the same class, where it IS Euler's
+   criterion by the theorem above -- this is what "independent of size" means. *)
+Theorem C13_table_depends_on_class : forall g p, 0 <= p -> check_gp g p = check_gp g (p mod 840).
+Proof. exact check_gp_mod840. Qed.
+Print Assumptions C13_table_depends_on_class.
+Theorem C13_classes_covered : classes_covered = true.
+Proof. exact classes_covered_true. Qed.
+Print Assumptions C13_classes_covered.
 
 Theorem C13_inrange_fn : forall x lo hi, in_range x lo hi = true <-> lo < x < hi.
 Proof. exact in_range_spec. Qed.
@@ -86,11 +99,28 @@ Theorem C13_pq_no_panic : forall pq_is_prime rounds fuel pq rnd,
 Proof. exact decompose_pq_no_panic. Qed.
 Print Assumptions C13_pq_no_panic.
 
+(* a product of two primes is never refused by the up-front guard *)
+Theorem C13_pq_semiprime_not_rejected : forall pq_is_prime rounds fuel a b rnd,
+  prime a -> prime b -> (pq_is_prime = true -> prime (a * b)) ->
+  decompose_pq pq_is_prime rounds fuel (a * b) rnd <> Err EReject.
+Proof. exact semiprime_not_rejected. Qed.
+Print Assumptions C13_pq_semiprime_not_rejected.
+
+(* fuel adequacy: the inner loop makes at most lim - j iterations, so with that much fuel the only
+   non-results are "rounds exhausted" and "random source failed" *)
+Theorem C13_pq_inner_fuel_adequate : forall fuel what v x y j lim g,
+  lim - j <= Z.of_nat fuel -> pq_inner fuel what v x y j lim g <> None.
+Proof. exact pq_inner_fuel_ok. Qed.
+Print Assumptions C13_pq_inner_fuel_adequate.
+
 (* NOT proved (and not provable): that the algorithm returns for every semiprime below 2^63.
    It is a randomised Brent/Pollard search: termination depends on the random stream (a
    stream that keeps producing a cycle without a non-trivial gcd never returns), so the
    property's "returns the two prime factors for every product" is claimed only in the
-   partial form above and supported by exhaustive runs of the real code (harness). *)
+   partial form above (moreover lim = 1 << (i+18) wraps to a non-positive int from round 45 on:
+   pq_lim i <= 0 for i >= 45, so from then on the Go loop makes no progress and only consumes
+   the random source -- unreachable in practice, but it rules out a termination proof even for
+   an ideal stream) and supported by exhaustive runs of the real code (harness). *)
 
 (* non-vacuity *)
 Example C13_safe_prime_exists : 6 < 23 < 4000 /\ safe_primeb 23 = true /\ gp_table 2 23.
